@@ -581,6 +581,14 @@ where
     /// close the store and wait for the dispatcher to finish
     pub fn stop(&self) {
         self.close();
+        #[cfg(rs_store_verif)]
+        crate::verif::pt(
+            "stop.closed",
+            crate::verif::store_id(&self.metrics),
+            0,
+            None,
+            0,
+        );
 
         // wait until the reducer loop has drained the queue and scheduled the effects of the
         // remaining actions: the pool has to stay available until then
